@@ -702,8 +702,8 @@ struct Executor {
             }
         }
         if (!bad.empty()) viol({"C05"}, "h", std::string("matrix-differs-from-rfc5170:") + (enc ? "encoder" : "decoder"), bad + " (k=" + std::to_string(sc.k) + " r=" + std::to_string(sc.r) + " N1=" + std::to_string(sc.fc->f->N1) + " seed=" + std::to_string(sc.fc->f->pseed) + ")", &sc);
-        bool lib_extra = shim_extra_entries(sc.h) != 0;
-        if (lib_extra != c.extra_entries) viol({"C05", "C15"}, "h", "extra-entries-marker-differs", "", &sc);
+        int lib_extra = shim_extra_entries(sc.h);
+        if (lib_extra >= 0 && (lib_extra != 0) != c.extra_entries) viol({"C05", "C15"}, "h", "extra-entries-marker-differs", "", &sc);
     }
 
     void do_setcb(SesCtx &sc) {
@@ -1083,6 +1083,7 @@ struct Executor {
     // ------------------------------------------------------------ main loop
     void run() {
         uint64_t refused0 = ledger_refused_huge();
+        if (!shim_available()) count("whitebox_shim_unavailable");
         ledger_reset();
         ad_global_reset(opt.solo_session >= 0 && opt.solo_scramble ? opt.solo_scramble : plan.scramble);
         ad_set_rand_stream(plan.scramble);
